@@ -9,6 +9,9 @@ def degenerate_e2e(rng, cid):
     variant = (rng.chance(0.5), rng.chance(0.5), rng.chance(0.5))
     types = rng.choice(gen.TYPE_PAIRS)
     e = gen.gen_edges(rng, types[0], types[1], nmax=rng.choice([2, 3, 5, 9]), lmax=rng.choice([1, 1, 3]), recmax=rng.choice([2, 5, 12]))
+    if rng.chance(0.12):
+        # every record has zero weight in every layer: vertices but no edge at all (all normalisers are exactly 0)
+        e = {'L': e['L'], 'recs': [(s, t, [('0.0' if types[1] == 'r' else '0')] * e['L']) for s, t, _ in e['recs']]}
     line, m = gen.gen_e2e(rng, cid, variant=variant, types=types, edges=e, maxit_max=60, r_max=3, K=rng.choice([2, 3, 5]))
     if m['from_init'] and rng.chance(0.5):
         # zero a whole layer / most entries of the supplied affinity
